@@ -38,7 +38,9 @@ def getreader(*args, **kwds):
               'First arguments are usually paths') % (args[0],))
 
     if format is None:
-        _myreaders = _readers
+        # a copy: the suffix preference below must not change the
+        # registry that later opens start from
+        _myreaders = list(_readers)
         # Try to give preferential treatment based on suffix
         try:
             if len(args) > 0:
